@@ -46,7 +46,8 @@ BATCHES = [{"share": 0.85}, {"share": 0.15, "pyflags": ["-O"], "tier_suffix": "-
 EXPECTED_PROBES = ["copies_after_assignment", "repeated_prefix", "wrapper_reused_across_calls",
                    "wrapper_first_seen_in_copy_then_parent", "nested_wrappers",
                    "unsupported_node_faults", "int_values_compared", "float_values_compared",
-                   "mapped_cse_copies", "prefix_collides_with_generated_name"]
+                   "mapped_cse_copies", "prefix_collides_with_generated_name",
+                   "mixed_emissions"]
 
 BUILD_DIR = os.path.join(os.path.dirname(os.path.dirname(os.path.abspath(__file__))), "build")
 
@@ -61,12 +62,19 @@ class _FragGen:
         self.r, self.kind, self.pool, self.max_depth = r, kind, pool, max_depth
 
     def var(self):
-        return ["n", "Variable", [["s", self.r.choice(INT_VARS if self.kind == "int" else FLT_VARS)]]]
+        return ["n", "Variable", [["s", self.r.choice(FLT_VARS if self.kind == "float" else INT_VARS)]]]
 
     def const(self):
         r = self.r
         if self.kind == "int":
             return ["i", r.choice([0, 1, 2, 3, 4, 5, 7, 9, -1, -2, -3])]
+        if self.kind == "mixed":
+            # integer variables with float constants: every float constant is dyadic and every
+            # division is by a power of two, so all arithmetic is exact in binary floating
+            # point and C's promotion rules are the only thing that matters
+            if r.random() < 0.5:
+                return ["i", r.choice([0, 1, 2, 3, 4, 5, -1, -2])]
+            return ["f", repr(r.choice([0.5, 1.0, 1.5, 2.0, 4.0, -1.0, 0.25, 3.0]))]
         return ["f", repr(r.choice([0.5, 1.5, 2.0, 3.25, -1.0, -0.75, 4.0, 10.0, 0.125]))]
 
     def cond(self, d):
@@ -106,6 +114,8 @@ class _FragGen:
         ops = ["sum", "prod", "sub", "pow", "pow", "if", "neg"]
         if k == "int":
             ops += ["fdiv", "rem", "fdiv", "rem", "min", "max", "cmp"]
+        elif k == "mixed":
+            ops += ["fdiv", "rem", "min", "max", "cmp", "quotp2", "quotp2"]
         else:
             ops += ["quot", "quot", "gpow", "call", "call"]
         o = r.choice(ops)
@@ -135,6 +145,16 @@ class _FragGen:
                                                    ["f", "-1.0"], e(d + 1)])]]
         if o == "if":
             return ["n", "If", [self.cond(d + 1), e(d + 1), e(d + 1)]]
+        if o == "quotp2":
+            return ["n", "Quotient", [e(d + 1), ["f", repr(r.choice([2.0, 4.0, 0.5, 0.25]))]]]
+        if o in ("fdiv", "rem") and k == "mixed":
+            # // and % are for integer operands only: generate them in the integer sub-grammar
+            self.kind = "int"
+            try:
+                a, b = e(d + 1), self.divisor(d + 1)
+            finally:
+                self.kind = "mixed"
+            return ["n", "FloorDiv" if o == "fdiv" else "Remainder", [a, b]]
         if o == "fdiv":
             return ["n", "FloorDiv", [e(d + 1), self.divisor(d + 1)]]
         if o == "rem":
@@ -160,6 +180,34 @@ class _FragGen:
         return self.expr(d)
 
 
+def _retype_const(r, t):
+    import copy
+    paths = []
+
+    def walk(x, path):
+        if x[0] == "i" or (x[0] == "f" and float(x[1]) == int(float(x[1]))):
+            paths.append(path)
+        elif x[0] == "n":
+            for j, c in enumerate(x[2]):
+                walk(c, path + [2, j])
+        elif x[0] == "t":
+            for j, c in enumerate(x[1]):
+                walk(c, path + [1, j])
+    walk(t, [])
+    if not paths:
+        return None
+    t2 = copy.deepcopy(t)
+    node = t2
+    path = r.choice(paths)
+    if not path:
+        return None
+    for step in path[:-1]:
+        node = node[step]
+    old = node[path[-1]]
+    node[path[-1]] = ["f", repr(float(old[1]))] if old[0] == "i" else ["i", int(float(old[1]))]
+    return t2
+
+
 def _strip_cse(t):
     if t[0] == "n":
         if t[1] == "CommonSubexpression":
@@ -172,7 +220,7 @@ def _strip_cse(t):
 
 def generate(seed, tier):
     r = random.Random(seed)
-    kind = r.choice(["int", "float"])
+    kind = r.choice(["int", "float", "mixed"])
     mixin = r.random() < 0.12
     fault_run = r.random() < 0.2
     pool = []
@@ -185,7 +233,14 @@ def generate(seed, tier):
             t = g.wrap(t)
         ops.append(["def", f"e{k}", t])
         pool.append(f"e{k}")
-    if kind == "int":
+    if kind == "mixed":
+        # typed twins: the same tree with one constant as int resp. float (i + 1 vs i + 1.0)
+        for k in range(min(2, npool)):
+            tw = _retype_const(r, ops[k][2])
+            if tw is not None:
+                ops.append(["def", f"e{len(pool)}", tw])
+                pool.append(f"e{len(pool)}")
+    if kind in ("int", "mixed"):
         env = {v: ["i", r.randint(0, 12)] for v in INT_VARS}
     else:
         env = {v: ["f", repr(round(r.uniform(-3, 3), 3))] for v in FLT_VARS}
@@ -249,6 +304,7 @@ class _M:
         self.emitted = []      # [(text, expr obj, op index)]
         self.snapshot = ()
         self.ancestors_mapped = []
+        self.conflated = False
 
 
 def _wrapper_children(o, acc, p, c_shortcuts=True):
@@ -270,6 +326,52 @@ def _wrapper_children(o, acc, p, c_shortcuts=True):
     elif isinstance(o, tuple):
         for x in o:
             _wrapper_children(x, acc, p, c_shortcuts)
+
+
+def ctype_obj(e, p):
+    """Static C type ("int" / "float") of an expression in a program whose variables are all
+    long long, or None if C and the evaluator would not mean the same thing (int / int is an
+    integer division in C, // and % are for integers only)."""
+    if isinstance(e, bool) or isinstance(e, int):
+        return "int"
+    if isinstance(e, float):
+        return "float"
+    if not isinstance(e, p.Expression):
+        return None
+    if isinstance(e, p.Variable):
+        return "int"
+    if isinstance(e, p.CommonSubexpression) or type(e).__name__ == "Unsupp":
+        return ctype_obj(e.child, p)
+    if isinstance(e, (p.Sum, p.Product, p.Min, p.Max)):
+        ts = [ctype_obj(c, p) for c in e.children]
+        if None in ts or not ts:
+            return None
+        return "float" if "float" in ts else "int"
+    if isinstance(e, p.Quotient):
+        a, b = ctype_obj(e.numerator, p), ctype_obj(e.denominator, p)
+        if a is None or b is None or (a == "int" and b == "int"):
+            return None
+        return "float"
+    if isinstance(e, (p.FloorDiv, p.Remainder)):
+        a, b = ctype_obj(e.numerator, p), ctype_obj(e.denominator, p)
+        return "int" if a == "int" and b == "int" else None
+    if isinstance(e, p.Power):
+        b = ctype_obj(e.base, p)
+        if b is None or not isinstance(e.exponent, int) or e.exponent not in (0, 1, 2):
+            return None
+        return "int" if e.exponent == 0 else b
+    if isinstance(e, p.Comparison):
+        return None if None in (ctype_obj(e.left, p), ctype_obj(e.right, p)) else "int"
+    if isinstance(e, (p.LogicalAnd, p.LogicalOr)):
+        return None if None in [ctype_obj(c, p) for c in e.children] else "int"
+    if isinstance(e, p.LogicalNot):
+        return None if ctype_obj(e.child, p) is None else "int"
+    if isinstance(e, p.If):
+        c, a, b = (ctype_obj(x, p) for x in (e.condition, e.then, e.else_))
+        if None in (c, a, b):
+            return None
+        return "float" if "float" in (a, b) else "int"
+    return None
 
 
 def _make_ref_evaluator():
@@ -350,6 +452,13 @@ def execute(scenario, open_sigs):
         if violation is None:
             violation = {"cls": cls, "detail": detail}
 
+    def kf(sig, what):
+        if sig in open_sigs:
+            if not any(k["sig"] == sig for k in known):
+                known.append({"sig": sig, "what": what})
+            return True
+        return False
+
     def lst(m):
         return [(n, t) for n, t in m.obj.cse_name_list]
 
@@ -388,6 +497,7 @@ def execute(scenario, open_sigs):
                 probe("mapped_cse_copies")
             m.seen = list(par.seen)
             m.names = dict(par.names)
+            m.conflated = par.conflated
             m.ancestors_mapped = par.ancestors_mapped + par.mapped
             for nm, c in m.mapped:
                 cc = canon(c)
@@ -438,6 +548,18 @@ def execute(scenario, open_sigs):
                     return
         n_assigned = len([1 for _, t in entries])
         if n_assigned != len(m.seen):
+            classes = []
+            for c in m.seen:
+                if not any(util.model_eq(c, d) for d in classes):
+                    classes.append(c)
+            what = ("CCodeMapper.cse_to_name is keyed on the wrapped child with ==: CSE(i + 1) "
+                    "and CSE(i + 1.0) share one assignment, so after CSE(i+1)*3 the expression "
+                    "CSE(i+1.0)/2 is emitted as '_cse0 / 2' with _cse0 = i + 1, an integer "
+                    "division in C (D1 in the C code mapper)")
+            if len(classes) < len(m.seen) and len(classes) <= n_assigned <= len(m.seen) \
+                    and kf("nested-typed-constant-conflation", what):
+                m.conflated = True
+                return
             viol("C14/assigned-twice" if n_assigned > len(m.seen) else "C14/missing-assignment",
                  {"op": opi, "mapper": m.desc, "assignments": [(a, str(b)) for a, b in entries][:14],
                   "distinct_wrapped_children": len(m.seen)})
@@ -464,6 +586,12 @@ def execute(scenario, open_sigs):
             if violation is not None:
                 break
             e = B.build(t)
+            if kind == "mixed" and ctype_obj(e, p) is None:
+                probe("mixed_not_c_expressible_skipped")
+                events.append([opi, "skip"])
+                continue
+            if kind == "mixed":
+                probe("mixed_emissions")
             kids = []
             _wrapper_children(e, kids, p, m.desc["kind"] != "mixin")
             kid_canons = [canon(k) for k in kids]
@@ -523,11 +651,18 @@ def execute(scenario, open_sigs):
                         continue
                     old = m.names.setdefault(jkey(kc), nm)
                     if old != nm:
-                        viol("C14/name-changed", {"op": opi, "child": str(kc)[:300],
-                                                  "was": old, "now": nm})
+                        twin = any(util.model_eq(kc, s2) and util.typed_differs(kc, s2)
+                                   for s2 in m.seen)
+                        if twin and kf("nested-typed-constant-conflation",
+                                       "typed twins among wrapped children share one table "
+                                       "entry in CCodeMapper.cse_to_name (D1 in the C code mapper)"):
+                            m.conflated = True
+                        else:
+                            viol("C14/name-changed", {"op": opi, "child": str(kc)[:300],
+                                                      "was": old, "now": nm})
             except TypeError:
                 pass
-            if raised is None and isinstance(e, p.CommonSubexpression):
+            if raised is None and isinstance(e, p.CommonSubexpression) and not m.conflated:
                 want = m.names.get(jkey(canon(e.child)))
                 if want is not None and text != want:
                     viol("C14/name-changed", {"op": opi, "bare_wrapper_text": text, "want": want})
@@ -584,6 +719,8 @@ def _expectation(Ref, e, kind, env, fenv, probes):
     ctx = dict(fenv)
     v, bad = _ref_value(Ref, e, ctx)
     ok = v is not None and not bad
+    if ok and kind == "mixed":
+        return ["float", float(v), True]       # exact arithmetic by construction
     if ok and kind == "float":
         # conditioning filter
         ctx2 = dict(ctx)
@@ -605,12 +742,18 @@ def _expectation(Ref, e, kind, env, fenv, probes):
 def _build_post(ms, kind, env, fenv, Ref, p, probes):
     """C functions for every mapper that emitted something, with expected values."""
     from pymbolic.mapper.c_code import CCodeMapper
-    ctype = "long long" if kind == "int" else "double"
+    ctype = "double" if kind == "float" else "long long"
     funcs = []
     nontrivial = False
     total_assign = 0
     for mid, m in sorted(ms.items()):
         if m.desc["kind"] == "mixin" or not m.emitted:
+            continue
+        if m.conflated:
+            # typed twins share an assignment here (known finding): types and values of this
+            # mapper's program are not meaningful, it is left out
+            probes["functions_left_out_typed_twins"] = probes.get(
+                "functions_left_out_typed_twins", 0) + 1
             continue
         ctx = dict(fenv)
         body = []
@@ -633,11 +776,24 @@ def _build_post(ms, kind, env, fenv, Ref, p, probes):
             v, bad = _ref_value(Ref, child, ctx)
             if v is None or bad:
                 runnable = False
-            body.append(f"  {ctype} {nm} = {txt};")
+            ct = ctype
+            if kind == "mixed":
+                ct = {"int": "long long", "float": "double"}.get(ctype_obj(child, p))
+                if ct is None:
+                    return None, False
+            body.append(f"  {ct} {nm} = {txt};")
         entries = [(n, t) for n, t in m.obj.cse_name_list if isinstance(t, str)]
         total_assign += len(entries)
+        name_type = {}
+        if kind == "mixed":
+            for child, nm in m.obj.cse_to_name.items():
+                name_type[nm] = {"int": "long long", "float": "double"}.get(ctype_obj(child, p))
         for n, t in entries:
-            body.append(f"  {ctype} {n} = {t};")
+            ct = name_type.get(n, ctype) if kind == "mixed" else ctype
+            if ct is None:
+                runnable = False       # hoisted while a faulted emission was under way
+                ct = "double"
+            body.append(f"  {ct} {n} = {t};")
         # every hoisted child (also those inherited from a parent) must be safely
         # evaluable, else the function is compile-only
         for k in list(m.obj.cse_to_name):
